@@ -181,10 +181,19 @@ func main() {
 		}
 	}
 	svals := []*big.Int{one, big.NewInt(2), nm1, ref.HalfN, new(big.Int).Add(ref.HalfN, one), big.NewInt(0)}
+	// scalars whose STORED (Montgomery) limbs look like a small integer: 2^-256 mod n is stored as {1,0,0,0} (a test for
+	// "is one" / "is small" on raw limbs takes it for 1), 2^-64 mod n as {0,0,0,1}
+	rinv := new(big.Int).ModInverse(ref.R256, ref.N)
+	wOne := new(big.Int).Set(rinv)
+	wTop := ref.ModN(new(big.Int).Mul(rinv, new(big.Int).Lsh(one, 192)))
+	svals = append(svals, wOne, wTop)
 	sha := func(s string) []byte { return ref.TaggedHash("verif/C11", []byte(s)) }
 	digests := [][]byte{sha("a"), make([]byte, 32), bytes.Repeat([]byte{0xff}, 32), ref.B32(ref.N), ref.B32(one), append(sha("a"), 1, 2, 3), sha("a")[:31], {}, append(sha("b"), sha("c")...)}
+	// e = -(2^-256): the other operand position of the scalar multiplications; and digests longer than any hash output
+	// (only the leftmost 256 bits count: recovery and verification accept the same digests)
+	digests = append(digests, ref.B32(new(big.Int).Sub(ref.N, wOne)), append(append(sha("b"), sha("c")...), 0x01), bytes.Repeat(sha("d"), 4))
 	if !th {
-		digests = digests[:8]
+		digests = append(append([][]byte{}, digests[:7]...), digests[9:]...)
 	}
 	type tc struct {
 		dg   []byte
